@@ -710,23 +710,24 @@ Section Abstract.
   Qed.
 
   Definition mk (kt : list Z * tape R) : rv := RRec (fst kt) (snd kt).
-  Lemma all_some_inv rs kts : all_some (map rkeys rs) = Some kts -> rs = map mk kts.
+  Lemma asrec_RRs (r r' : rv) : RRs r r' -> RRs (mk (as_rec r)) (mk (as_rec r')).
   Proof.
-    revert kts. induction rs as [|r rs IH]; intros kts H; cbn in H.
-    - inversion H; reflexivity.
-    - destruct r as [c|ks t]; cbn in H; [discriminate|].
-      destruct (all_some (map rkeys rs)) as [l|]; [|discriminate]. inversion H; subst. cbn. f_equal. apply IH. reflexivity.
+    destruct r as [c|ks t], r' as [c'|ks' t']; cbn; try contradiction; [|tauto].
+    intros _. split; [exact wfk_0 | apply Permutation_refl].
   Qed.
-  Lemma all_some_mk kts : all_some (map rkeys (map mk kts)) = Some kts.
-  Proof. induction kts as [|[ks t] kts IH]; cbn; [reflexivity | rewrite IH; reflexivity]. Qed.
-  Lemma RRs_mk_inv kts rs' : Forall2 RRs (map mk kts) rs' -> exists kts', rs' = map mk kts'.
+  Lemma asrec_RRd venv venv' (r r' : rv) : RRs r r' -> RRd venv venv' r r' -> RRd venv venv' (mk (as_rec r)) (mk (as_rec r')).
   Proof.
-    revert rs'. induction kts as [|[ks t] kts IH]; intros rs' H; inversion H as [|? y ? l' Hh Ht]; subst.
-    - exists []. reflexivity.
-    - destruct (IH _ Ht) as [kts' E]. destruct y as [c|ks' t']; cbn in Hh; [contradiction|].
-      exists ((ks', t') :: kts'). cbn. f_equal. exact E.
+    destruct r as [c|ks t], r' as [c'|ks' t']; cbn [RRs]; try contradiction; [|intros _ H; exact H].
+    intros E _. subst c'. intros vs Hv. cbn in Hv. inversion Hv; subst. split; [reflexivity|]. exists [c]. cbn. auto.
   Qed.
-
+  Lemma Forall2_asrec (P : rv -> rv -> Prop) rs rs' :
+    (forall r r', RRs r r' -> P r r' -> P (mk (as_rec r)) (mk (as_rec r'))) ->
+    Forall2 RRs rs rs' -> Forall2 P rs rs' -> Forall2 P (map mk (map as_rec rs)) (map mk (map as_rec rs')).
+  Proof.
+    intros HP HS. induction HS as [|r r' l l' Hr HS IH]; intros HF; inversion HF; subst; cbn; constructor; auto.
+  Qed.
+  Lemma existsb_isrec_RRs rs rs' : Forall2 RRs rs rs' -> existsb is_rec rs = existsb is_rec rs'.
+  Proof. induction 1 as [|r r' l l' Hr HS IH]; cbn; [reflexivity|]. rewrite IH, (RRs_shape r r' Hr). reflexivity. Qed.
   Lemma mapM_run_rel venv venv' kts kts' args :
     Forall2 RRs (map mk kts) (map mk kts') -> Forall2 (RRd venv venv') (map mk kts) (map mk kts') ->
     mapM (run venv) (map snd kts) = Ok args ->
@@ -803,22 +804,25 @@ Section Abstract.
           exists (x' :: rs'). split; [reflexivity|]. split; [constructor; assumption|].
           intros. constructor; [apply D | apply D']; assumption. }
       destruct (HM args rs Hrs) as [rs' [E [S D]]]. rewrite E. cbn [bind].
-      destruct (all_some (map rkeys rs)) as [kts|] eqn:Has; [|discriminate].
-      apply all_some_inv in Has. subst rs.
-      destruct (RRs_mk_inv kts rs' S) as [kts' E']. subst rs'. rewrite all_some_mk.
+      rewrite <- (existsb_isrec_RRs rs rs' S). destruct (existsb is_rec rs); cbn [negb] in H |- *; [|discriminate].
+      set (kts := map as_rec rs) in *. set (kts' := map as_rec rs').
+      assert (S2 : Forall2 RRs (map mk kts) (map mk kts')).
+      { apply Forall2_asrec; [intros; apply asrec_RRs; assumption | exact S | exact S]. }
       inv_bindn H as body Hbody. rewrite Hbody. cbn [bind]. inv_bindn H as rb Hrb.
       assert (Hkin : Forall wfk (map fst kts) /\ Forall2 (@Permutation Z) (map fst kts) (map fst kts')).
-      { clear -S. revert kts' S. induction kts as [|[ks t] kts IHk]; intros [|[ks' t'] kts'] S;
-          inversion S as [|? ? ? ? S1 S2]; subst; cbn.
+      { clear -S2. revert S2. generalize kts'. clear kts'. induction kts as [|[ks t] kts0 IHk]; intros [|[ks' t'] kts'] S;
+          inversion S as [|? ? ? ? S1 S3]; subst; cbn.
         - split; constructor.
-        - destruct (IHk kts' S2) as [F1 F2]. cbn in S1. destruct S1 as [W P]. split; constructor; assumption. }
+        - destruct (IHk kts' S3) as [F1 F2]. cbn in S1. destruct S1 as [W P]. split; constructor; assumption. }
       destruct Hkin as [Hkin Hpin].
       destruct (IH body (map fst kts) (map fst kts') rb Hkin Hpin Hrb) as [rb' [Eb [Sb Db]]]. rewrite Eb. cbn [bind].
       destruct rb as [c|ko tb]; [discriminate|]. destruct rb' as [c'|ko' tb']; [contradiction|].
       inversion H; subst r. clear H.
       exists (RRec ko' (TCall k (map fst kts') tb' (map snd kts'))). split; [reflexivity|]. split; [exact Sb|].
       intros venv venv' HE vs Hrun. rewrite run_TCall in Hrun. inv_bindn Hrun as cargs Hcargs.
-      destruct (mapM_run_rel venv venv' kts kts' cargs S (D venv venv' HE) Hcargs) as [args' [Ea HEa]].
+      assert (D2 : Forall2 (RRd venv venv') (map mk kts) (map mk kts')).
+      { apply Forall2_asrec; [intros; apply asrec_RRd; assumption | exact S | exact (D venv venv' HE)]. }
+      destruct (mapM_run_rel venv venv' kts kts' cargs S2 D2 Hcargs) as [args' [Ea HEa]].
       destruct (Db cargs args' HEa vs Hrun) as [Hl [vs' [Hv' R']]].
       split; [exact Hl|]. exists vs'. rewrite run_TCall, Ea. cbn [bind]. split; [exact Hv' | exact R'].
   Qed.
@@ -984,8 +988,17 @@ Section Abstract.
     cbn [rec_meth2 is_rnum negb andb]. unfold is_bin.
     destruct (mlookup m tape_methods) as [[[op' sw'] ar']|] eqn:Et.
     - destruct (tables_agree _ _ _ _ _ _ _ Em Et) as [E1 E2]. subst op' ar'.
+      unfold rec_meth2tab. rewrite Et.
       apply (ds_node2' op (VMv x) v2 ks t r2 r0 (VMv r0)); try assumption. apply Permutation_refl.
-    - split; [exact Hwr | reflexivity].
+    - (* not bound by partialmethod: one of the written-out reflected members (excluded: MultiVector swaps
+         their operands) or no member at all *)
+      assert (Hsp : forall nm, In nm ["__rsub__"; "__rmul__"; "__rxor__"] -> m <> nm).
+      { intros nm Hin E. subst nm. destruct (lk_mv_special m Hin) as [op1 [ar1 E1]]. rewrite E1 in Em. discriminate. }
+      unfold rec_special.
+      destruct (String.eqb_spec m "__rsub__") as [E|_]; [exfalso; apply (Hsp "__rsub__"); cbn; auto|].
+      destruct (String.eqb_spec m "__rmul__") as [E|_]; [exfalso; apply (Hsp "__rmul__"); cbn; auto|].
+      destruct (String.eqb_spec m "__rxor__") as [E|_]; [exfalso; apply (Hsp "__rxor__"); cbn; auto|].
+      split; [exact Hwr | reflexivity].
   Qed.
 
   Lemma lk_un m op : In (m, op) [("__neg__", "neg"); ("__invert__", "reverse"); ("inv", "inv"); ("normsq", "normsq");
@@ -1047,54 +1060,76 @@ Section Abstract.
   Lemma as_mv_eq_perm (v0 : vl) m : as_mv v0 = m -> Permutation (as_mv v0) m.
   Proof. intros E. rewrite E. apply Permutation_refl. Qed.
 
+  (* the reflected members of the recorder, evaluated on the tables *)
+  Lemma rm2_radd ks t r2 : rec_meth2 opd tape_methods (rdunder IAdd) (RRec ks t) r2 = rec_binary opd "add" ks t r2.
+  Proof. unfold rec_meth2, rec_meth2tab. rewrite (lk_tp_rdunder IAdd). reflexivity. Qed.
+  Lemma rm2tab_radd ks t r2 : rec_meth2tab opd tape_methods "__radd__" (RRec ks t) r2 = rec_binary opd "add" ks t r2.
+  Proof. unfold rec_meth2tab. rewrite lk_tp_radd. reflexivity. Qed.
+  Lemma rm2_rsub ks t a : rec_meth2 opd tape_methods (rdunder ISub) (RRec ks t) (RNum a)
+    = (n <- rec_meth1 opd tape_methods "__neg__" (RRec ks t) ;; rec_meth2tab opd tape_methods "__radd__" n (RNum a)).
+  Proof. unfold rec_meth2. rewrite (lk_tp_rdunder ISub). reflexivity. Qed.
+  Lemma rm2_rmul ks t a : rec_meth2 opd tape_methods (rdunder IMul) (RRec ks t) (RNum a) = rec_binary opd "gp" ks t (RNum a).
+  Proof. unfold rec_meth2. rewrite (lk_tp_rdunder IMul). unfold rec_special, rec_meth2tab. cbn [String.eqb rdunder].
+    change (String.eqb "__rmul__" "__rsub__") with false. change (String.eqb "__rmul__" "__rmul__") with true. cbn iota.
+    rewrite (proj2 lk_gp). reflexivity. Qed.
+  Lemma rm2_rxor ks t a : rec_meth2 opd tape_methods (rdunder IXor) (RRec ks t) (RNum a) = rec_binary opd "op" ks t (RNum a).
+  Proof. unfold rec_meth2. rewrite (lk_tp_rdunder IXor). unfold rec_special, rec_meth2tab. cbn [rdunder].
+    change (String.eqb "__rxor__" "__rsub__") with false. change (String.eqb "__rxor__" "__rmul__") with false.
+    change (String.eqb "__rxor__" "__rxor__") with true. cbn iota.
+    rewrite lk_op. reflexivity. Qed.
+  Lemma rm2_none o ks t r2 : match o with IDiv | IOr | IAnd | IRshift | IMatmul => True | _ => False end ->
+    rec_meth2 opd tape_methods (rdunder o) (RRec ks t) r2 = Err EAttr.
+  Proof. intros H. unfold rec_meth2. rewrite lk_tp_rdunder. destruct o; try contradiction; reflexivity. Qed.
+
   (* number o r with a number LITERAL on the left and a recorder on the right: the reflected members of
-     TapeRecorder: __radd__, __rmul__, __rxor__ (partialmethods: self op number), __rsub__ (other + (-self)) *)
+     TapeRecorder: __radd__ (partialmethod: self + number), __rmul__, __rxor__ (self op number for a plain
+     number), __rsub__ (other + (-self)) *)
   Lemma ds_infix_lit o a v2 ks2 t2 v' : wfv v2 -> DS v2 (RRec ks2 t2) ->
     mv_infix O opd mv_methods o (VNum a) v2 = Ok v' ->
     Step v' (rec_infix O opd tape_methods o (RNum a) (RRec ks2 t2)) false
          (match o with IAdd | ISub | IMul | IXor => true | _ => false end).
   Proof.
-    intros Hw2 Hd2 H. cbn [rec_infix]. rewrite lk_tp_rdunder.
+    intros Hw2 Hd2 H. cbn [rec_infix].
     assert (Hwa : wfv (VNum a)) by apply wfv_num.
     assert (Hda : DS (VNum a) (RNum a)) by reflexivity.
     destruct v2 as [b|y].
     - (* the right operand is a coefficient: Python arithmetic on the plain side *)
       cbn [mv_infix] in H.
       destruct o; try discriminate; inversion H; subst v'; clear H.
-      + cbn [rec_meth2]. rewrite lk_tp_rdunder.
+      + rewrite rm2_radd.
         apply (ds_node2' "add" (VNum b) (VNum a) ks2 t2 (RNum a) [(0, radd b a)] (VNum (radd a b))); try assumption.
         * apply (ok_s_add Hopd).
         * apply as_mv_eq_perm. cbn. f_equal. f_equal. ring.
       + destruct (ds_node1 "neg" (VNum b) ks2 t2 [(0, ropp b)] Hw2 Hd2 (ok_s_neg Hopd b)) as [Hwn [qn [En [Dn Sn]]]].
-        cbn [rec_meth1]. rewrite (proj2 (lk_mv_un "__neg__" "neg" (or_introl eq_refl))). rewrite En. cbn [bind].
-        rewrite lk_tp_radd. destruct qn as [c|kn tn]; [discriminate|]. cbn [rec_meth2]. rewrite lk_tp_radd.
+        rewrite rm2_rsub. cbn [rec_meth1]. rewrite (proj2 (lk_mv_un "__neg__" "neg" (or_introl eq_refl))). rewrite En. cbn [bind].
+        destruct qn as [c|kn tn]; [discriminate|]. rewrite rm2tab_radd.
         apply (ds_node2' "add" (VMv [(0, ropp b)]) (VNum a) kn tn (RNum a) [(0, radd (ropp b) a)] (VNum (rsub a b))); try assumption.
         * apply (ok_s_add Hopd).
         * apply as_mv_eq_perm. cbn. f_equal. f_equal. ring.
-      + cbn [rec_meth2]. rewrite lk_tp_rdunder.
+      + rewrite rm2_rmul.
         apply (ds_node2' "gp" (VNum b) (VNum a) ks2 t2 (RNum a) [(0, rmul b a)] (VNum (rmul a b))); try assumption.
         * apply (ok_s_gp Hopd).
         * apply as_mv_eq_perm. cbn. f_equal. f_equal. ring.
     - (* the right operand is a multivector: MultiVector's reflected member on the plain side *)
       cbn [mv_infix mv_meth2] in H. rewrite lk_mv_rdunder in H. inv_bindn H as m Hm. inversion H; subst v'; clear H.
       assert (Hwm : wfv (VMv m)) by (destruct o; (eapply call_wfv; [|exact Hm]; fa; assumption)).
-      destruct o; cbn [opname] in *; try (split; [exact Hwm | reflexivity]).
+      destruct o; cbn [opname] in *; try (rewrite rm2_none by exact I; split; [exact Hwm | reflexivity]).
       + (* number + y  ->  y.__radd__(number): add(y, number) on both sides *)
-        cbn [rec_meth2]. rewrite lk_tp_rdunder.
+        rewrite rm2_radd.
         apply (ds_node2' "add" (VMv y) (VNum a) ks2 t2 (RNum a) m (VMv m)); try assumption. apply Permutation_refl.
       + (* number - y  ->  number + (-y) *)
         destruct (ok_rsub Hopd a y m Hw2 Hm) as [n [m' [Hn [Hm' Hp]]]].
         destruct (ds_node1 "neg" (VMv y) ks2 t2 n Hw2 Hd2 Hn) as [Hwn [qn [En [Dn Sn]]]].
-        cbn [rec_meth1]. rewrite (proj2 (lk_mv_un "__neg__" "neg" (or_introl eq_refl))). rewrite En. cbn [bind].
-        rewrite lk_tp_radd. destruct qn as [c|kn tn]; [discriminate|]. cbn [rec_meth2]. rewrite lk_tp_radd.
+        rewrite rm2_rsub. cbn [rec_meth1]. rewrite (proj2 (lk_mv_un "__neg__" "neg" (or_introl eq_refl))). rewrite En. cbn [bind].
+        destruct qn as [c|kn tn]; [discriminate|]. rewrite rm2tab_radd.
         apply (ds_node2' "add" (VMv n) (VNum a) kn tn (RNum a) m' (VMv m)); try assumption.
       + (* number * y  ->  y * number *)
         destruct (ok_gp_comm Hopd a y m Hw2 Hm) as [m' [Hm' Hp]].
-        cbn [rec_meth2]. rewrite lk_tp_rdunder.
+        rewrite rm2_rmul.
         apply (ds_node2' "gp" (VMv y) (VNum a) ks2 t2 (RNum a) m' (VMv m)); try assumption.
       + (* number ^ y  ->  y ^ number *)
         destruct (ok_op_comm Hopd a y m Hw2 Hm) as [m' [Hm' Hp]].
-        cbn [rec_meth2]. rewrite lk_tp_rdunder.
+        rewrite rm2_rxor.
         apply (ds_node2' "op" (VMv y) (VNum a) ks2 t2 (RNum a) m' (VMv m)); try assumption.
   Qed.
 
@@ -1107,7 +1142,7 @@ Section Abstract.
       + cbn in Hd2. subst v2. cbn in H |- *.
         destruct o; try discriminate; inversion H; subst; (apply Step_ok; [apply wfv_num | reflexivity | reflexivity]).
       + cbn [is_rnum andb sup_infix]. apply (ds_infix_lit o a v2); assumption.
-    - cbn [is_rnum andb sup_infix]. cbn [rec_infix rec_meth2]. rewrite lk_tp_dunder.
+    - cbn [is_rnum andb sup_infix]. cbn [rec_infix]. unfold rec_meth2, rec_meth2tab. rewrite lk_tp_dunder.
       apply (ds_infix_rec o v1 v2); assumption.
   Qed.
 
